@@ -5,6 +5,7 @@
 package main
 
 import (
+	"github.com/thushan/olla/internal/zz_verif/soak"
 	"bytes"
 	"encoding/json"
 	"github.com/thushan/olla/internal/config"
@@ -253,6 +254,14 @@ func main() {
 				c.Emit(map[string]any{"kind": "xroute", "engine": engine, "fault": kind, "stream": stream, "impl": passthroughBreaks(engine, kind, stream)})
 				c.Count("xroute." + engine)
 			}
+		}
+	}
+	// long-lived engine instances: clients go away mid-stream, afterwards several clients stream at the same time, each
+	// from a backend answer that carries its own nonce in every event: what a client holds is its own answer's bytes
+	if vlib.ReplayPath() == "" {
+		for _, engine := range []string{"sherpa", "olla"} {
+			c.Emit(map[string]any{"kind": "soak", "engine": engine, "impl": soak.Run(engine, map[bool]int{false: 25, true: 250}[tier == "thorough"], 4, 8)})
+			c.Count("soak." + engine)
 		}
 	}
 	c.Close(map[string]any{"exhaustive": true, "exhaustive_note": "all single and pair assignments of the 13 attempt behaviours per engine (and per profile in thorough); triples exhaustive in thorough, sampled 1/12 in quick"})
